@@ -71,7 +71,12 @@ fn ty_s<'tcx>(t: Ty<'tcx>) -> String {
     trunc(with_no_trimmed_paths!(t.to_string()))
 }
 fn path_s(tcx: TyCtxt<'_>, d: DefId) -> String {
-    with_no_trimmed_paths!(tcx.def_path_str(d))
+    let p = with_no_trimmed_paths!(tcx.def_path_str(d));
+    if d.is_local() && !p.starts_with('<') {
+        format!("{}::{}", tcx.crate_name(LOCAL_CRATE), p)
+    } else {
+        p
+    }
 }
 
 // ---------------------------------------------------------------- spans
@@ -712,6 +717,9 @@ fn dump_body<'tcx>(tcx: TyCtxt<'tcx>, def: LocalDefId, body: &Body<'tcx>) -> Str
             first = false;
             let _ = write!(out, "{{\"name\":{},\"p\":", js(v.name.as_str()));
             cx.place(p, &mut out);
+            if v.source_info.span.desugaring_kind().is_some() {
+                out.push_str(",\"ds\":true");
+            }
             out.push('}');
         }
     }
@@ -868,11 +876,55 @@ fn dump_items<'tcx>(tcx: TyCtxt<'tcx>, out: &mut String) {
                 continue;
             }
         }
-        let ty = tcx.type_of(did).instantiate_identity().skip_norm_wip();
-        if !(ty.is_integral() || ty.is_bool() || ty.is_char() || ty.is_floating_point()) {
+        let env = ty::TypingEnv::post_analysis(tcx, did);
+        let Ok(ty) = tcx.try_normalize_erasing_regions(env, tcx.type_of(did).instantiate_identity()) else { continue };
+        let is_str = matches!(ty.kind(), ty::Ref(_, inner, _) if inner.is_str());
+        if !(ty.is_integral() || ty.is_bool() || ty.is_char() || ty.is_floating_point() || is_str) {
             continue;
         }
         let Ok(val) = tcx.const_eval_poly(did) else { continue };
+        if is_str && !matches!(val, ConstValue::Slice { .. }) {
+            // e.g. a `&str` returned by a const fn: an indirect value; read (ptr, len) out of the allocation
+            if let ConstValue::Indirect { alloc_id, offset } = val {
+                let alloc = tcx.global_alloc(alloc_id).unwrap_memory().inner();
+                let ptr_size = tcx.data_layout.pointer_size();
+                let range = rustc_abi::Size::from_bytes(offset.bytes())..rustc_abi::Size::from_bytes(offset.bytes() + 2 * ptr_size.bytes());
+                let _ = range;
+                let r1 = rustc_middle::mir::interpret::alloc_range(offset, ptr_size);
+                let r2 = rustc_middle::mir::interpret::alloc_range(offset + ptr_size, ptr_size);
+                if let (Ok(p), Ok(l)) = (alloc.read_scalar(&tcx, r1, true), alloc.read_scalar(&tcx, r2, false)) {
+                    if let (rustc_middle::mir::interpret::Scalar::Ptr(ptr, _), Ok(len)) = (p, l.try_to_scalar_int().map(|x| x.to_bits(x.size()) as u64)) {
+                        let (prov, off) = ptr.into_raw_parts();
+                        if let Some(rustc_middle::mir::interpret::GlobalAlloc::Memory(data)) = tcx.try_get_global_alloc(prov.alloc_id()) {
+                            let data = data.inner();
+                            let bytes = data.inspect_with_uninit_and_ptr_outside_interpreter(off.bytes_usize()..off.bytes_usize() + len as usize);
+                            if let Ok(st) = std::str::from_utf8(bytes) {
+                                if !first {
+                                    out.push(',');
+                                }
+                                first = false;
+                                let _ = write!(out, "{{\"path\":{},\"ty\":\"&str\",\"str\":{}}}", js(&path_s(tcx, did)), js(st));
+                            }
+                        }
+                    }
+                }
+            }
+            continue;
+        }
+        if is_str {
+            if let ConstValue::Slice { .. } = val {
+                if let Some(bytes) = val.try_get_slice_bytes_for_diagnostics(tcx) {
+                    if let Ok(st) = std::str::from_utf8(bytes) {
+                        if !first {
+                            out.push(',');
+                        }
+                        first = false;
+                        let _ = write!(out, "{{\"path\":{},\"ty\":\"&str\",\"str\":{}}}", js(&path_s(tcx, did)), js(st));
+                    }
+                }
+            }
+            continue;
+        }
         let Some(si) = val.try_to_scalar_int() else { continue };
         if !first {
             out.push(',');
